@@ -87,6 +87,13 @@ __parsec_compound_taskpool_constructor( parsec_compound_taskpool_t* compound )
     compound->completed_taskpools = 0;
     compound->nb_taskpools = 0;
     compound->super.startup_hook = parsec_compound_taskpool_startup;
+    /* Hold one pending action until the startup hook installs the real count
+     * (one per composed taskpool): parsec_context_add_taskpool() installs the
+     * local termination detector and declares the taskpool ready BEFORE it
+     * calls the startup hook, and a ready taskpool without pending actions is
+     * detected as terminated on the spot (completion callback fired and
+     * active_taskpools decremented before the first composed taskpool ran). */
+    compound->super.nb_pending_actions = 1;
 }
 
 PARSEC_OBJ_CLASS_INSTANCE(parsec_compound_taskpool_t, parsec_taskpool_t,
